@@ -1,14 +1,16 @@
 /-
 Closed forms of the machine-translated tracker functions (C16).
 
-Only the *entry points* of the translation are mentioned by name here (`Blocking.block/unblock/isBlocked`, the five
+Only the *entry points* of the translation exist as Lean definitions (`Blocking.block/unblock/isBlocked`, the five
 `Tracker.handleStatus…`, `Tracker.getNewStatusIfChanged`, `Tracker.runIteration`): these are the seams the repo's own
 tests call.  Private helpers of the current source (`_is_…`, `_get_current_status`, whatever a refactoring introduces)
-are unfolded by the generated tactic `c16_unfold_helpers`.  Every closed form is proved by case analysis on the
+are inlined by the translator, which emits every entry point as the canonical decision tree of what it computes
+(`tools/extractors/battery_status.py`), so a behaviour-preserving rewrite of the Python source normally regenerates
+the very same Lean text.  As a second line of defence every closed form below is proved by case analysis on the
 *semantic* atoms (flags, status, optional deadline, comparisons) followed by simplification — not by matching the
-syntactic shape of the translated term — so behaviour-preserving rewrites of the Python source (inverted conditions,
-reordered branches, guard clauses, single-return style, `match`, extracted/inlined helpers) leave the proofs intact,
-while a behavioural change makes them fail.
+syntactic shape of the translated term — so even a rewrite that does change the generated term (inverted conditions,
+reordered branches, rearranged arithmetic) leaves the proofs intact, while a behavioural change makes them fail.
+(`c16_unfold_helpers` only unfolds the library helper `optCmp` now.)
 -/
 import Frequenz.Model.BatteryStatus
 import Mathlib.Tactic.SplitIfs
